@@ -48,6 +48,19 @@ Definition V_PAIR_DISAGREE : N := 73.
 Definition V_PAIR_SETUP_TWICE : N := 74.
 Definition V_PAIR_COMPLETE_WITHOUT_TRUST : N := 75.
 Definition V_PAIR_SPINE_NOT_EXACTLY_ONCE_IN_ORDER : N := 76.
+Definition V_PAIR_COMPLETED_AFTER_CANCEL : N := 77.
+
+(* did the user cancel while the server's hello phase was waiting (states 8 / 11)? *)
+Fixpoint cancel_in_hello (cfg : pcfg) (p : pair) (ls : list label) : bool :=
+  match ls with
+  | [] => false
+  | l :: r =>
+      (match l with
+       | LCancel => f_cancels cfg && negb (u_done (core p))
+                    && (N.eqb (p_st (e_s (core p))) 8 || N.eqb (p_st (e_s (core p))) 11)
+       | _ => false end)
+      || cancel_in_hello cfg (pstep_or_stay cfg p l) r
+  end.
 
 Definition trust_in_labels (cfg : pcfg) (ls : list label) : bool :=
   f_paired cfg || f_auto cfg || (f_approves cfg && existsb (fun l => match l with LApprove => true | _ => false end) ls).
@@ -58,7 +71,8 @@ Definition pair_monitor (c : pair_case) : codes :=
   let safety :=
     flat_map (fun o =>
       (if (o_nsetc o <=? 1) && (o_nsets o <=? 1) then [] else [V_PAIR_SETUP_TWICE]) ++
-      (if implb (o_compc o || o_comps o) (trust_in_labels cfg (pc_labels c)) then [] else [V_PAIR_COMPLETE_WITHOUT_TRUST]))
+      (if implb (o_compc o || o_comps o) (trust_in_labels cfg (pc_labels c)) then [] else [V_PAIR_COMPLETE_WITHOUT_TRUST]) ++
+      (if (o_compc o || o_comps o) && cancel_in_hello cfg (pair_init cfg) (pc_labels c) then [V_PAIR_COMPLETED_AFTER_CANCEL] else []))
       (pc_sums c) in
   let over := match timely_next false cfg (final_pair cfg (pc_labels c)) with [] => true | _ => false end in
   let outcome :=
